@@ -149,6 +149,11 @@ static std::vector<Tmpl> ecdsa_templates() {
     T.push_back({"2-of-3 CHECKMULTISIGVERIFY", [](auto& k, auto&) { return C({O(0x52), P(k[0].pub), P(k[1].pub), P(k[2].pub), O(0x53), O(0xaf), O(0x51)}); }, [](auto& s) { return std::vector<bytes>{{}, s[0], s[1]}; }, {{0, 0}, {1, 0}}});
     T.push_back({"scriptCode contains the signature push (FindAndDelete)", [](auto& k, auto& s) { return C({P(s[0]), O(0x75), P(k[0].pub), O(0xac)}); }, one, {{0, 0}}});
     T.push_back({"multisig scriptCode contains a signature push (FindAndDelete)", [](auto& k, auto& s) { return C({P(s[1]), O(0x75), O(0x52), P(k[0].pub), P(k[1].pub), O(0x52), O(0xae)}); }, [](auto& s) { return std::vector<bytes>{{}, s[0], s[1]}; }, {{0, 0}, {1, 0}}});
+    // occurrences at the very end of the script code and in the middle (the match loop's end condition), and two adjacent ones
+    T.push_back({"scriptCode ends with the signature push (FindAndDelete at the end)", [](auto& k, auto& s) { return C({P(k[0].pub), O(0xac), O(0x69), P(s[0])}); }, one, {{0, 0}}});
+    T.push_back({"scriptCode ends with two signature pushes (FindAndDelete)", [](auto& k, auto& s) { return C({P(k[0].pub), O(0xac), O(0x69), P(s[0]), P(s[0])}); }, one, {{0, 0}}});
+    T.push_back({"signature push in the middle and at the end (FindAndDelete)", [](auto& k, auto& s) { return C({P(k[0].pub), O(0xac), O(0x69), P(s[0]), O(0x75), O(0x51), O(0x69), P(s[0])}); }, one, {{0, 0}}});
+    T.push_back({"multisig scriptCode ends with a signature push (FindAndDelete)", [](auto& k, auto& s) { return C({O(0x52), P(k[0].pub), P(k[1].pub), O(0x52), O(0xae), O(0x69), P(s[0])}); }, [](auto& s) { return std::vector<bytes>{{}, s[0], s[1]}; }, {{0, 0}, {1, 0}}});
     return T;
 }
 
